@@ -112,14 +112,35 @@ def _tables_written(fn: ast.AST) -> Set[str]:
   return out
 
 
-_RAM_CONTAINER_ROWS = {'trial_protos': 'trials', 'suggestion_operations': 'suggestion_operations',
-                       'early_stopping_operations': 'early_stopping_operations', 'study_proto': 'studies'}
 _PER_STUDY_ROWS = {'studies', 'trials', 'suggestion_operations', 'early_stopping_operations'}
+
+
+def _ram_container_rows(svc: Svc) -> Dict[str, str]:
+  """field name of the RAM node dataclasses -> kind of row it holds, read off the field's annotation."""
+  out: Dict[str, str] = {}
+  for ci in svc.ram.module.classes.values():
+    for st in ci.node.body:
+      if isinstance(st, ast.AnnAssign) and isinstance(st.target, ast.Name):
+        ann = unparse(st.annotation, 0)
+        if 'EarlyStoppingOperation' in ann:
+          out[st.target.id] = 'early_stopping_operations'
+        elif 'operations_pb2.Operation' in ann or ann.endswith('Operation]'):
+          out[st.target.id] = 'suggestion_operations'
+        elif 'study_pb2.Trial' in ann:
+          out[st.target.id] = 'trials'
+        elif ann.endswith('study_pb2.Study'):
+          out[st.target.id] = 'studies'
+  if len(set(out.values())) < 4:
+    raise AnalysisError(f'RAM node dataclasses: row containers recognised: {out}')
+  return out
 
 
 def r11_write_footprint(ctx, svc: Svc) -> None:
   from vzstatic.sqlmodel import SqlModel
   tables = sql_tables(svc)
+  _RAM_CONTAINER_ROWS = _ram_container_rows(svc)
+  node_fields = {st.target.id for ci in svc.ram.module.classes.values() for st in ci.node.body
+                 if isinstance(st, ast.AnnAssign) and isinstance(st.target, ast.Name)} | {'_owners'}
   n = 0
   for m in svc.ds_abstract:
     if not m.name.startswith(('create_', 'update_', 'delete_')) or m.name in ('update_metadata', 'create_study', 'update_study'):
@@ -154,9 +175,11 @@ def r11_write_footprint(ctx, svc: Svc) -> None:
         last = chain.rsplit('.', 1)[-1].split('[')[0]
         if last in _RAM_CONTAINER_ROWS:
           ram_rows.add(_RAM_CONTAINER_ROWS[last])
-        elif last == 'studies' and kind == 'del':
+        elif kind == 'del' and last in node_fields and last != '_owners' and last not in _RAM_CONTAINER_ROWS \
+            and any('StudyNode' in unparse(st.annotation, 0) for ci in svc.ram.module.classes.values() for st in ci.node.body
+                    if isinstance(st, ast.AnnAssign) and isinstance(st.target, ast.Name) and st.target.id == last):
           ram_rows |= _PER_STUDY_ROWS
-        elif last in ('clients', '_owners', 'studies'):
+        elif last in node_fields:
           continue  # container nodes created on demand: no rows of their own
         else:
           unknown.append(chain)
